@@ -134,6 +134,7 @@ func devirtFunc(pl *planner, fd *ast.FuncDecl) int {
 	type bound struct {
 		recv *types.Var
 		meth string
+		lit  *types.Var // instead: the local that holds the function literal itself
 	}
 	var resolve func(v *types.Var, depth int) (bound, bool)
 	resolve = func(v *types.Var, depth int) (bound, bool) {
@@ -144,6 +145,11 @@ func devirtFunc(pl *planner, fd *ast.FuncDecl) int {
 			return bound{}, false
 		}
 		switch r := defs[v][0].rhs.(type) {
+		case *ast.FuncLit:
+			if depth == 0 {
+				return bound{}, false // called under its own name already
+			}
+			return bound{lit: v}, true
 		case *ast.Ident:
 			w, _ := info.Uses[r].(*types.Var)
 			if w == nil {
@@ -165,7 +171,7 @@ func devirtFunc(pl *planner, fd *ast.FuncDecl) int {
 			default:
 				return bound{}, false
 			}
-			return bound{rv, r.Sel.Name}, true
+			return bound{recv: rv, meth: r.Sel.Name}, true
 		}
 		return bound{}, false
 	}
@@ -191,6 +197,16 @@ func devirtFunc(pl *planner, fd *ast.FuncDecl) int {
 		// the receiver's name must mean the receiver at the call
 		scope := pl.pkg.Types.Scope().Innermost(call.Pos())
 		if scope == nil {
+			return true
+		}
+		if b.lit != nil {
+			// `pred := f` … pred(x): call f itself (the closure pass takes it from there)
+			if _, o := scope.LookupParent(b.lit.Name(), call.Pos()); o != types.Object(b.lit) {
+				return true
+			}
+			call.Fun = ast.NewIdent(b.lit.Name())
+			replaced[v] = true
+			n++
 			return true
 		}
 		if _, o := scope.LookupParent(b.recv.Name(), call.Pos()); o != types.Object(b.recv) {
